@@ -523,6 +523,16 @@ Walk:
 				if !lazy {
 					copyWithResize(c.tsrParams, c.params)
 				}
+			} else if !strings.HasSuffix(path, "/") && charsMatched == len(path) && charsMatchedInNodeFound == len(current.key) {
+				// Tsr recommendation: add an extra trailing slash (the path ends on this intermediary node
+				// and one of its child is exactly the leaf "/").
+				if idx := linearSearch(current.childKeys, slashDelim); idx >= 0 && current.children[idx].isLeaf() && len(current.children[idx].key) == 1 {
+					tsr = true
+					n = current.children[idx]
+					if !lazy {
+						copyWithResize(c.tsrParams, c.params)
+					}
+				}
 			}
 		}
 
